@@ -19,6 +19,7 @@ func run(c *fw.Ctx) *fw.Stats {
 		}
 	}
 	runE(c, total)
+	runX(c, total)
 	first := map[string]bool{}
 	for _, cfg := range sconfigs(c.Tier) {
 		searchS(c, cfg, total, first)
@@ -33,6 +34,11 @@ func replay(c *fw.Ctx, raw json.RawMessage) []fw.Viol {
 	}
 	if err := json.Unmarshal(raw, &probe); err != nil {
 		fw.Fatal("c20: bad case: %v", err)
+	}
+	if probe.Config == "X" {
+		var xc xCase
+		json.Unmarshal(raw, &xc)
+		return replayX(xc)
 	}
 	if probe.Config != "" {
 		var sc sCase
@@ -51,6 +57,7 @@ func init() {
 		Rule: "E: every field kind (15 scalar kinds, enum, message) x every boundary value (int32/int64/uint32/uint64 limits and limit+-1, 2^64, floats incl. NaN/-0/inf, bools, str, bytes, None, enum values of the right and of another enum, undefined enum number/name, message, dict, list) x every position " +
 			"(attribute, constructor keyword, dict constructor, set_field, nested dict, repeated: list assignment/constructor/set_field/append/x[i]=, map value: m[k]=/overwrite/dict assignment/constructor, map key: m[k]=/dict assignment/constructor/in/index) on a fresh message built from a programmatic descriptor; " +
 			"oracle = acceptance table from the documented conversions (accept/reject/open), exact read-back, binary and text marshal->unmarshal equality, Go-type walk of every stored value, any recovered Go panic is a violation; every case is non-trivial. " +
+			"X: every ordered pair (source field, destination field) over all fields of the message (17 kinds in singular/repeated/map position, second enum and message types, one optional and one repeated extension per kind) x write form (attribute, set_field, constructor, extend, update, as one element) x {mutable, frozen destination}: the value read from the populated source (scalar, message, RepeatedField view, MapField view) is written to the destination; no panic, source unchanged, both messages well-typed after either outcome, same-field writes succeed and reproduce the content, frozen destinations refuse and stay unchanged; non-trivial = accepted writes. " +
 			"S: explicit-state BFS, successor = replay of the history on fresh objects + one operation of {new, empty, copy T(h), h.f_msg=g.f_msg, h.F=g.F (repeated/map, also g=h), take view/sub-message/element handle, freeze handle, mutate through handle (scalar, x[0]=, append, m[k]=), mutate through a path from a message handle}; " +
 			"state = object graph of all handles and frozen storages with storage identities (aliasing), content, per-handle model and actual frozen flag; invariants per transition: content of every storage whose handle was frozen is unchanged, h.F=g.F leaves destination equal to the source's previous content and the source unchanged, every stored value has its kind's Go type and range, no panic; cyclic message graphs are pruned; non-trivial = distinct states other than the initial one",
 		Run:    run,
